@@ -677,6 +677,37 @@ pub fn vary_composite(spec: &'static CompSpec, v: &RValue, knobs: &[u8]) -> RVal
     vary_inner(spec, v, &mut next)
 }
 
+/// The described-map form of a composite that the derive macros document as accepted
+/// ("the deserialization will take either the list or the map encoded values"): descriptor, then a
+/// map from field names to the fields that are set. Only the outermost composite is put into map form.
+pub fn map_form(spec: &'static CompSpec, v: &RValue, knobs: &[u8]) -> Option<RValue> {
+    let fields = match v {
+        RValue::Described(_, inner) => match &**inner {
+            RValue::List(f) => f.clone(),
+            _ => return None,
+        },
+        _ => return None,
+    };
+    if spec.fields.is_empty() {
+        return None;
+    }
+    let k = |i: usize| knobs.get(i % knobs.len().max(1)).copied().unwrap_or(0);
+    let mut entries = Vec::new();
+    for (i, fs) in spec.fields.iter().enumerate() {
+        let x = fields.get(i).cloned().unwrap_or(RValue::Null);
+        if x == RValue::Null {
+            continue;
+        }
+        let key = if k(2) % 2 == 0 { RValue::sym(fs.name) } else { RValue::str(fs.name) };
+        entries.push((key, x));
+    }
+    if k(3) % 2 == 1 {
+        entries.reverse();
+    }
+    let desc = if k(4) % 3 == 1 { RValue::sym(spec.name) } else { RValue::Ulong(spec.code) };
+    Some(RValue::described(desc, RValue::Map(entries)))
+}
+
 fn vary_inner(spec: &'static CompSpec, v: &RValue, next: &mut dyn FnMut() -> u8) -> RValue {
     let fields = match v {
         RValue::Described(_, inner) => match &**inner {
